@@ -10,7 +10,8 @@
      `expSmallI_ratio`, `expI_ratio` : hi ≤ lo·(1+10^-74)²·exp(width of the reduced argument)
      `expR_width`      : width of the reduced argument ≤ width a + 2·10^-74·(|mid a|+1) + 16ε
      `exp_ratio`       : |x| ≤ 10^7, Encl.exp x = some s → 0 < s.m.lo ∧ s.m.hi ≤ s.m.lo·(1 + 10^-66)
-  4. `log_width`       : Encl.log q k = some l → l.hi − l.lo = 2·max(1, |mid|)·10^-60 with mid = (l.lo+l.hi)/2
+  4. `log_width`       : Encl.log q k = some l → l.hi − l.lo = 2·max(|mid|·10^-60, 10^-72) with mid = (l.lo+l.hi)/2
+     `log_width_le`    : 0 ≤ l.hi − l.lo ≤ 2·10^-60·|mid| + 2·10^-72
 -/
 import D128.Proofs.EnclosureRange
 set_option autoImplicit false
@@ -327,11 +328,11 @@ theorem exp_ratio {x : ℚ} {s : Sci} (h : Encl.exp x = some s) (hx : |x| ≤ 10
 
 /-! ## 4. the certified logarithm -/
 
-/-- the bracket of the certified logarithm has half-width `max(1, |mid|)·10^-60` around its midpoint: narrow
-    relative to one unit in the last place of the logarithm only when `|ln| ≥ 2·10^-26` -/
+/-- the bracket of the certified logarithm has half-width `max(|mid|·10^-60, 10^-72)` around its midpoint -/
 theorem log_width {q : ℚ} {k : Int} {l : I} (h : Encl.log q k = some l) :
     l.hi - l.lo =
-      2 * ((if |(l.lo + l.hi) / 2| < 1 then 1 else |(l.lo + l.hi) / 2|) * pow10 (-60)) := by
+      2 * (if |(l.lo + l.hi) / 2| * pow10 (-60) < pow10 (-72) then pow10 (-72)
+           else |(l.lo + l.hi) / 2| * pow10 (-60)) := by
   unfold Encl.log at h
   simp only [Option.ite_none_right_eq_some, Option.some.injEq] at h
   obtain ⟨-, rfl⟩ := h
@@ -339,5 +340,25 @@ theorem log_width {q : ℚ} {k : Int} {l : I} (h : Encl.log q k = some l) :
   have : ∀ g d : ℚ, (g - d + (g + d)) / 2 = g := fun g d => by ring
   rw [this]
   ring
+
+/-- in (relative, absolute) form -/
+theorem log_width_le {q : ℚ} {k : Int} {l : I} (h : Encl.log q k = some l) :
+    0 ≤ l.hi - l.lo ∧ l.hi - l.lo ≤ 2 / 10 ^ 60 * |(l.lo + l.hi) / 2| + 2 / 10 ^ 72 := by
+  have hw := log_width h
+  have e60 : pow10 (-60) = 1 / 10 ^ 60 := by rw [pow10_eq_zpow]; norm_num
+  have e72 : pow10 (-72) = 1 / 10 ^ 72 := by rw [pow10_eq_zpow]; norm_num
+  rw [e60, e72] at hw
+  have hm := abs_nonneg ((l.lo + l.hi) / 2)
+  split at hw
+  · constructor
+    · rw [hw]; norm_num
+    · rw [hw]
+      have : (0 : ℚ) ≤ 2 / 10 ^ 60 * |(l.lo + l.hi) / 2| := by positivity
+      linarith
+  · constructor
+    · rw [hw]; positivity
+    · rw [hw]
+      have : (0 : ℚ) ≤ 2 / 10 ^ 72 := by norm_num
+      linarith
 
 end EnclPf
